@@ -27,6 +27,8 @@ def gen_env(rng):
     e["LANG"] = rng.choice(LOCALE_CHOICES)
     e["PYTHONUTF8"] = rng.choice([None, None, "0", "1"])
     e["cwd"] = rng.choice(["root", "tmp", "deleted"])
+    # what a real process would draw from the OS at start-up (urandom, pid, start time): owned by the simulator too
+    e["entropy"] = rng.randrange(1, 2 ** 32)
     return e
 
 
@@ -50,6 +52,7 @@ class Node:
                 env[k] = env_spec[k]
         env["VERIF_NODE_FDS"] = f"{r_child},{w_child}"
         env["VERIF_NODE_SRC"] = repo_src()
+        env["VERIF_NODE_ENTROPY"] = str(env_spec.get("entropy", 1))
         env["PYTHONDONTWRITEBYTECODE"] = "1"
         cwd = "/"
         if env_spec["cwd"] in ("tmp", "deleted"):
